@@ -93,6 +93,11 @@ ROUTES = [
     ("eval-indirect", "(0, eval)('{T}()');", "sync"),
     ("Function-ctor", "new Function('{T}()')();", "sync"),
     ("bind", "{T}.bind(null)();", "sync"),
+    ("bound-chain", "{T}.bind(null).bind(null, 1).bind(null).bind(null, 2)();", "sync"),
+    ("Reflect.get-getter-chain", "Reflect.get(Object.create({{get x(){{ return Reflect.get({{get y(){{ return {T}(); }}}}, 'y'); }}}}), 'x');", "sync"),
+    ("call-apply-chain", "Function.prototype.call.call(Function.prototype.apply, {T}, null, []);", "sync"),
+    ("async-await-chain", "(async function(){{ await {T}(); }})();", "sync"),
+    ("generator-delegation-chain", "var _g = (function*(){{ {T}(); yield 1; }})(); for (var _i = 0; _i < 3; _i++) {{ _g = (function*(inner){{ yield* inner; }})(_g); }} _g.next();", "sync"),
     ("bind-new", "new ({T}.bind(null))();", "sync"),
     ("apply", "{T}.apply(null, []);", "sync"),
     ("call-call", "{T}.call(null);", "sync"),
@@ -165,6 +170,18 @@ NATIVE_LOOPS = [
     ("yield*-spread", "[...(function*(){{ yield* {IT}; }})()];"),
 ]
 ENDLESS_IT = "{[Symbol.iterator](){ var n = 0; return {next(){ print('b'); return {done: ++n > %d, value: 1}; }}; }}"
+
+
+def direct_eval_chain(k):
+    """Pure direct-eval recursion: the string re-enters eval, no function call on the way down."""
+    return "var n = 0; var c = \"n++ < %d ? eval(c) : n\";\nprint('depth', eval(c));\n" % k
+
+
+def generator_chain(k, form):
+    """k delegating generators around a leaf, all resumed by one next(): depth = k + 1 generator frames."""
+    body = "yield* inner;" if form == "yield*" else "for (var x of inner) { yield x; }"
+    return ("function* leaf(){ print('leaf'); yield 1; }\nvar g = leaf();\n"
+            "for (var i = 0; i < %d; i++) { g = (function*(inner){ %s })(g); }\nprint('value', g.next().value);\n" % (k, body))
 
 
 def wrap_native_loop(tpl, steps):
